@@ -40,3 +40,10 @@ reg("C30", "model_checking",
     "operation index and results after each step (deviation = MODEL-DRIFT, not an alarm). "
     "T: the API events of every real execution (those walks plus 2000 seeded random 2-3 client schedules) are validated as a behaviour of the property-level spec; a rejected history is the VIOLATION.",
     COOP_NOTE + " Aborted write phases may overlap a successful validation (third clause of the property).", "DESIGN.md 9 C30")
+eval_reg("C20", "outputs with -p (interpreter -j1/-j4, compiled sampled) must equal the model, and the number souffleprof's rel table reports for every relation is judged by TLC (spec/Judge.tla ProfileOK) against the relation's size in the spec's full interpretation.",
+         "Relation size 'at the end of evaluation' is read as the size when the relation's stratum is complete (before expiry clears).")
+reg("C23", "model_checking",
+    "TLC computes the unlimited stratified model (spec/Datalog.tla); real souffle runs with .limitsize for every limit 0..|Model|+1; TLC judges each real output with the result predicate LimitOK (spec/Judge.tla)",
+    "For generated recursive programs and every small EDB the unlimited model comes from TLC; the real interpreter is run with the limit k in {0,1,2,|M|-1,|M|,|M|+1} on "
+    "each recursive relation and TLC evaluates the property's three clauses (subset; equal when |M|<k; at least k tuples otherwise) on the real output.",
+    EVAL_NOTE + " Only the limited relation itself is judged.", "DESIGN.md 9 C23")
